@@ -5,8 +5,8 @@
 #include <m4ri/echelonform.h>
 const char *prop_id = "C16";
 typedef struct { int kind, m, l, n, param, team, nested, prefill; } scen_t;
-enum { F_MUL_MP, F_ADDMUL_MP, F_MUL, F_M4RM, F_ECH, F_ADDMUL_M4RM, F_TRSM_LL, F_TRSM_UL, F_TRSM_LR, F_TRSM_UR, F_ECH_PLUQ, F_INV, F_NK };
-static const char *fname[] = {"mzd_mul_mp", "mzd_addmul_mp", "mzd_mul", "mzd_mul_m4rm", "mzd_echelonize_m4ri", "mzd_addmul_m4rm", "mzd_trsm_lower_left", "mzd_trsm_upper_left", "mzd_trsm_lower_right", "mzd_trsm_upper_right", "mzd_echelonize_pluq", "mzd_inv_m4ri"};
+enum { F_MUL_MP, F_ADDMUL_MP, F_MUL, F_M4RM, F_ECH, F_ADDMUL_M4RM, F_TRSM_LL, F_TRSM_UL, F_TRSM_LR, F_TRSM_UR, F_ECH_PLUQ, F_INV, F_TRTRI, F_NK };
+static const char *fname[] = {"mzd_mul_mp", "mzd_addmul_mp", "mzd_mul", "mzd_mul_m4rm", "mzd_echelonize_m4ri", "mzd_addmul_m4rm", "mzd_trsm_lower_left", "mzd_trsm_upper_left", "mzd_trsm_lower_right", "mzd_trsm_upper_right", "mzd_echelonize_pluq", "mzd_inv_m4ri", "mzd_trtri_upper"};
 static scen_t SC[4096]; static int nsc = 0, cur = 0; static char NAME[200];
 static pm *A, *B, *C0, *REFM; static int REFRANK; static uint64_t GOTD; static int GOTRANK;
 static int g_tier = 0, g_teams_all = 0, g_prefill_only = 0; static unsigned g_kinds = 0xffffffffu; static int g_maxteam = 99; static char g_as[8] = "C16";
@@ -36,6 +36,10 @@ void hb_args(int argc, char **argv) {
     add_nested(F_MUL_MP, 1200, 130, 1160, 512, 2, 2);
     /* entry points that reach the parallel loops indirectly (through mzd_addmul / the row-processing kernels): triangular solves,
        PLUQ-based elimination, inversion, with > 512 rows */
+    /* the multi-core front ends on every combination of "dimension is / is not a multiple of 128" (remainder strips in rows only,
+       columns only, inner dimension only, ...) */
+    for (int rm = 0; rm < 8; rm++) { int m = (rm & 1) ? 300 : 256, l = (rm & 2) ? 290 : 256, n = (rm & 4) ? 200 : 256; add(F_MUL_MP, m, l, n, 64, 2); add(F_ADDMUL_MP, m, l, n, 64, 2); if (rm == 1 || rm == 4 || rm == 6) { add(F_ADDMUL_MP, m, l, n, 128, 4); add(F_MUL_MP, m, l, n, 128, 4); } }
+    add(F_TRTRI, 700, 0, 0, 0, 2); add(F_TRTRI, 400, 0, 0, 0, 4);
     for (int team = 2; team <= 4; team += 2) { add(F_TRSM_LL, 650, 0, 70, 0, team); add(F_TRSM_UL, 650, 0, 70, 0, team); add(F_TRSM_LR, 600, 0, 70, 0, team); add(F_TRSM_UR, 600, 0, 70, 0, team); add(F_ECH_PLUQ, 700, 0, 200, 1, team); add(F_INV, 600, 0, 0, 0, team); }
     return;
   }
@@ -48,7 +52,8 @@ void hb_args(int argc, char **argv) {
     /* internally parallel loops: > 512 rows so that the static chunks are spread over the threads */
     add(F_M4RM, 1025, 64, 64, 0, team); add(F_M4RM, 1537, 70, 65, 3, team); add(F_ADDMUL_M4RM, 1030, 65, 64, 0, team); add(F_MUL, 1100, 64, 130, 0, team);
     add(F_ECH, 1100, 0, 200, 1, team); add(F_ECH, 1540, 0, 130, 0, team); add(F_ECH, 520, 0, 520, 1, team);
-    if (team <= 5 || team == 8 || team == 16) { add(F_TRSM_LL, 650, 0, 70, 0, team); add(F_TRSM_UL, 650, 0, 70, 0, team); add(F_TRSM_LR, 600, 0, 70, 0, team); add(F_TRSM_UR, 600, 0, 70, 0, team); add(F_TRSM_LL, 1100, 0, 130, 0, team); add(F_TRSM_UL, 1100, 0, 65, 0, team); add(F_ECH_PLUQ, 700, 0, 200, 1, team); add(F_ECH_PLUQ, 1100, 0, 130, 0, team); add(F_INV, 600, 0, 0, 0, team); add(F_INV, 530, 0, 0, 3, team); }
+    if (team <= 5) for (int rm = 0; rm < 8; rm++) { int m = (rm & 1) ? 300 : 256, l = (rm & 2) ? 290 : 256, n = (rm & 4) ? 200 : 256; add(F_MUL_MP, m, l, n, 64, team); add(F_ADDMUL_MP, m, l, n, 64, team); add(F_ADDMUL_MP, m, l, n, 128, team); }
+    if (team <= 5 || team == 8 || team == 16) { add(F_TRTRI, 700, 0, 0, 0, team); add(F_TRTRI, 400, 0, 0, 0, team); add(F_TRSM_LL, 650, 0, 70, 0, team); add(F_TRSM_UL, 650, 0, 70, 0, team); add(F_TRSM_LR, 600, 0, 70, 0, team); add(F_TRSM_UR, 600, 0, 70, 0, team); add(F_TRSM_LL, 1100, 0, 130, 0, team); add(F_TRSM_UL, 1100, 0, 65, 0, team); add(F_ECH_PLUQ, 700, 0, 200, 1, team); add(F_ECH_PLUQ, 1100, 0, 130, 0, team); add(F_INV, 600, 0, 0, 0, team); add(F_INV, 530, 0, 0, 3, team); }
     if (team >= 2 && team <= 4) { add_nested(F_MUL_MP, 1200, 700, 1160, 512, team, 2); add_nested(F_ADDMUL_MP, 1160, 650, 1200, 512, team, 2); add_nested(F_MUL_MP, 1200, 300, 1200, 512, team, 3); }
   }
 }
@@ -69,6 +74,8 @@ void hb_prepare(void) {
   } else if (q->kind == F_ECH_PLUQ) {
     pm *L = pm_pat(q->m, (q->n * 2) / 3, (pat){P_PR, 0, 1}), *R = pm_pat((q->n * 2) / 3, q->n, (pat){P_PR, 0, 2}); A = pm_mul(L, R); pm_free(L); pm_free(R);
     REFM = pm_rref(A); REFRANK = pm_rank(A);
+  } else if (q->kind == F_TRTRI) {
+    A = pm_unit_upper(q->m, 4, 2); REFM = pm_inverse(A);
   } else if (q->kind == F_INV) {
     A = pm_dense_invertible(q->m, 5); REFM = pm_inverse(A);
   } else if (q->kind >= F_TRSM_LL && q->kind <= F_TRSM_UR) {
@@ -98,6 +105,7 @@ void hb_root(void) {
   case F_ECH: GOTRANK = mzd_echelonize_m4ri(Az, q->param, 0); R = Az; break;
   case F_ECH_PLUQ: GOTRANK = mzd_echelonize_pluq(Az, 1); R = Az; break;
   case F_INV: R = mzd_inv_m4ri(NULL, Az, q->param); break;
+  case F_TRTRI: mzd_trtri_upper(Az); R = Az; break;
   case F_TRSM_LL: mzd_trsm_lower_left(Az, Bz, 0); R = Bz; break;
   case F_TRSM_UL: mzd_trsm_upper_left(Az, Bz, 0); R = Bz; break;
   case F_TRSM_LR: mzd_trsm_lower_right(Az, Bz, 0); R = Bz; break;
